@@ -1,26 +1,34 @@
-import VyxalModel.Lemmas.PyBasic
+import VyxalModel.Lemmas.Frag
 /-!
 # The simulation relation between the reference state and the Python state, and one lemma per template
 
 `Rel σ π`: the Python variable `stack` holds the reference stack (in Python order), the four `ctx` lists, the
 register, the ghost variable and the output agree, `retain_popped` / `use_top_input` are off, every program
 variable `x` is the Python variable `VAR_x`, and no other Python variable shadows a library name.
-(Module level — `depth = 0` — in this file; function frames are added by the closure stage.)
+At depth > 0 the running function's frame holds `stack` and the named parameters; the closure tables are related entry by entry.
 -/
 namespace Vy.Sem
 open Vy PyAst
 
-/-- Python names that the templates bind besides `stack` and the `VAR_…` / `_lambda_…` families -/
-def junkNames : List String :=
-  ["condition", "lhs", "rhs", "third", "top", "temp", "_", "arguments", "arguments_A", "arguments_B", "stack_copy",
-   "function_A", "function_B", "function_C", "res", "res_A", "res_B", "ret", "this", "parameters", "temp_list", "f",
-   "list_item", "arg_stack", "self", "arity", "s"]
+/-- `B` is a transpilation of `body` (with any starting identifier, with or without the `pass` of an empty body) -/
+def IsTr (env : TEnv) (body : List Structure) (B : List PyStmt) : Prop :=
+  ∃ k b k', transpileL env k body = .ok (b, k') ∧ (B = b ∨ B = orPass b)
 
-structure Rel (σ : RSt) (π : PSt) : Prop where
-  d0 : σ.depth = 0
-  params : σ.params = []
-  pd0 : π.depth = 0
-  stack : lookupP ("stack", []) π.globals = some (.list σ.stack.reverse)
+/-- the arity expression in a lambda template denotes `a` -/
+def ArE (e : PyExpr) (a : Int) : Prop := e = pyInt a ∨ (e = .attr ctxE "default_arity" ∧ a = 1)
+
+/-- a live entry of the reference closure table and the Python function object with the same number -/
+structure LamRel (env : TEnv) (rf : RFn) (pf : PFn) : Prop where
+  params : pf.params = lambdaParams
+  body : ∃ arE B, pf.body = lambdaPrologue arE ++ B ++ lambdaEpilogue ∧ ArE arE rf.arity ∧ IsTr env rf.body B
+  arity : pf.arity = some (.int rf.arity)
+  stored : pf.stored = rf.stored.map Val.int
+  frag : fragL env.elements rf.body = true
+
+structure Rel (env : TEnv) (A : Option Val) (σ : RSt) (π : PSt) : Prop where
+  depth : π.depth = σ.depth
+  params0 : σ.depth = 0 → σ.params = []
+  stack : π.getVar ("stack", []) = some (.list σ.stack.reverse)
   ctxVals : π.ctxVals = σ.ctxVals
   inputs : π.inputs = σ.inputs
   register : π.register = σ.register
@@ -29,68 +37,121 @@ structure Rel (σ : RSt) (π : PSt) : Prop where
   printed : π.printed = σ.printed
   retain : π.retain = false
   useTop : π.useTop = false
-  vars : ∀ x : Str, x ≠ [] → isLoopName x = false → lookupP ("VAR_", x) π.globals = lookupKV x σ.globals
-  clean : ∀ h : String, h ∉ junkNames → h ≠ "stack" → lookupP (h, []) π.globals = Option.none
+  stacks : π.stacks = σ.stacks
+  fnStack : π.fnStack = σ.fnStack
+  gvars : ∀ x : Str, x ≠ [] → isLoopName x = false → lookupKV x σ.funcs = Option.none →
+    lookupP ("VAR_", x) π.globals = lookupKV x σ.globals
+  lvars : 0 < σ.depth → ∀ x : Str, x ≠ [] → isLoopName x = false → lookupP ("VAR_", x) π.locals = lookupKV x σ.params
+  clean : ∀ h : String, h ∉ junkNames → h ≠ "stack" → π.getVar (h, []) = Option.none
+  fnsLen : π.fns.length = σ.fns.length
+  lams : ∀ (id : Nat) (rf : RFn), σ.fns[id]? = some rf → rf.live = true → ∃ pf, π.fns[id]? = some pf ∧ LamRel env rf pf
+  /-- the list the running function popped its arguments from (by reference the caller's list): nothing rebinds it -/
+  argVar : π.getVar ("arg_stack", []) = A
+
+variable {env : TEnv} {A : Option Val}
 
 /-- signals correspond one to one -/
 def sigP : Sig → PSig
   | .normal => .normal | .brk => .brk | .cont => .cont | .ret v => .ret (.list [v])
 
 /-- the relation after a statement list: a `break` / `continue` template has already popped the loop's context value
-    on the Python side, the reference loop pops it when the body hands the signal back -/
-def Post (sg : Sig) (σ : RSt) (π : PSt) : Prop :=
+    on the Python side, the reference loop pops it when the body hands the signal back; a `break` in a lambda has
+    already popped the four bookkeeping lists -/
+def Post (env : TEnv) (A : Option Val) (sg : Sig) (σ : RSt) (π : PSt) : Prop :=
   match sg with
-  | .normal => Rel σ π
-  | .brk | .cont => ∃ σ2, σ.dropCtx = .ok σ2 ∧ Rel σ2 π
-  | .ret _ => False
+  | .normal => Rel env A σ π
+  | .brk | .cont => ∃ σ2, σ.dropCtx = .ok σ2 ∧ Rel env A σ2 π
+  | .ret _ => ∃ σ2, σ.leaveLam = .ok σ2 ∧ Rel env A σ2 π
 
 /-! ### updates that keep the relation -/
 
-theorem Rel.setJunk {σ : RSt} {π : PSt} (h : Rel σ π) (name : String) (v : Val) (hj : name ∈ junkNames) :
-    Rel σ (π.setVar (name, []) v) := by
-  have hne : (name, ([] : List Nat)) ≠ ("stack", []) := by
-    intro he; have : name = "stack" := by injection he
+theorem setVar_globals_d0 (π : PSt) (k : PKey) (v : Val) (h : π.depth = 0) : (π.setVar k v).globals = setP k v π.globals := by
+  simp [PSt.setVar, h]
+theorem setVar_globals_pos (π : PSt) (k : PKey) (v : Val) (h : π.depth ≠ 0) : (π.setVar k v).globals = π.globals := by
+  simp [PSt.setVar, h]
+theorem setVar_locals_d0 (π : PSt) (k : PKey) (v : Val) (h : π.depth = 0) : (π.setVar k v).locals = π.locals := by
+  simp [PSt.setVar, h]
+theorem setVar_locals_pos (π : PSt) (k : PKey) (v : Val) (h : π.depth ≠ 0) : (π.setVar k v).locals = setP k v π.locals := by
+  simp [PSt.setVar, h]
+
+/-- binding a Python name that is neither `stack` nor a program variable nor a library name -/
+theorem Rel.setVarFrame {σ : RSt} {π : PSt} (h : Rel env A σ π) (k : PKey) (v : Val)
+    (hst : k ≠ ("stack", [])) (hvar : ∀ x : Str, x ≠ [] → isLoopName x = false → k ≠ ("VAR_", x))
+    (hcl : ∀ f : String, f ∉ junkNames → k ≠ (f, [])) (harg : k ≠ ("arg_stack", [])) :
+    Rel env A σ (π.setVar k v) := by
+  refine ⟨by simp [h.depth], h.params0, ?_, by simp [h.ctxVals], by simp [h.inputs], by simp [h.register], by simp [h.ghost],
+    by simp [h.out], by simp [h.printed], by simp [h.retain], by simp [h.useTop], by simp [h.stacks], by simp [h.fnStack],
+    ?_, ?_, ?_, by simp [h.fnsLen], by simpa using h.lams, ?_⟩
+  · rw [getVar_setVar_ne _ _ _ _ (Ne.symm hst)]; exact h.stack
+  · intro x hx hl hf
+    by_cases hd : π.depth = 0
+    · rw [setVar_globals_d0 _ _ _ hd, lookupP_setP_ne _ _ _ _ (Ne.symm (hvar x hx hl))]; exact h.gvars x hx hl hf
+    · rw [setVar_globals_pos _ _ _ hd]; exact h.gvars x hx hl hf
+  · intro hpos x hx hl
+    have hd : π.depth ≠ 0 := by rw [h.depth]; omega
+    rw [setVar_locals_pos _ _ _ hd, lookupP_setP_ne _ _ _ _ (Ne.symm (hvar x hx hl))]; exact h.lvars hpos x hx hl
+  · intro f hj hs
+    rw [getVar_setVar_ne _ _ _ _ (Ne.symm (hcl f hj))]; exact h.clean f hj hs
+  · rw [getVar_setVar_ne _ _ _ _ (Ne.symm harg)]; exact h.argVar
+
+theorem Rel.setJunk {σ : RSt} {π : PSt} (h : Rel env A σ π) (name : String) (v : Val) (hj : name ∈ junkNames)
+    (hna : name ≠ "arg_stack" := by decide) :
+    Rel env A σ (π.setVar (name, []) v) := by
+  apply h.setVarFrame
+  · intro he; have : name = "stack" := by injection he
     subst this; revert hj; decide
-  refine ⟨h.d0, h.params, by simp [h.pd0], ?_, by simp [h.ctxVals], by simp [h.inputs], by simp [h.register], by simp [h.ghost],
-    by simp [h.out], by simp [h.printed], by simp [h.retain], by simp [h.useTop], ?_, ?_⟩
-  · rw [setVar_d0 _ _ _ h.pd0]; simp only
-    rw [lookupP_setP_ne _ _ _ _ (Ne.symm hne)]; exact h.stack
-  · intro x hx hl
-    rw [setVar_d0 _ _ _ h.pd0]; simp only
-    rw [lookupP_setP_ne]; exact h.vars x hx hl
-    intro he; injection he with h1 h2; exact hx h2
-  · intro hn hnj hns
-    rw [setVar_d0 _ _ _ h.pd0]; simp only
-    rw [lookupP_setP_ne]; exact h.clean hn hnj hns
-    intro he; injection he with h1 h2; subst h1; exact hnj hj
+  · intro x hx _ he; injection he with h1 h2; exact hx h2.symm
+  · intro f hf he; injection he with h1 h2; subst h1; exact hf hj
+  · intro he; injection he with h1 _; exact hna h1
 
 /-- the Python state after `stack` is rebound -/
-theorem Rel.setStack {σ : RSt} {π : PSt} (h : Rel σ π) (st : List Val) :
-    Rel { σ with stack := st } (π.setVar ("stack", []) (.list st.reverse)) := by
-  refine ⟨h.d0, h.params, by simp [h.pd0], ?_, by simp [h.ctxVals], by simp [h.inputs], by simp [h.register], by simp [h.ghost],
-    by simp [h.out], by simp [h.printed], by simp [h.retain], by simp [h.useTop], ?_, ?_⟩
-  · rw [setVar_d0 _ _ _ h.pd0]; simp only; rw [lookupP_setP_eq]
-  · intro x hx hl
-    rw [setVar_d0 _ _ _ h.pd0]; simp only
-    rw [lookupP_setP_ne]; exact h.vars x hx hl
-    intro he; injection he with h1 h2; exact absurd h1 (by decide)
-  · intro hn hnj hns
-    rw [setVar_d0 _ _ _ h.pd0]; simp only
-    rw [lookupP_setP_ne]; exact h.clean hn hnj hns
-    intro he; injection he with h1 h2; exact hns h1
+theorem Rel.setStack {σ : RSt} {π : PSt} (h : Rel env A σ π) (st : List Val) :
+    Rel env A { σ with stack := st } (π.setVar ("stack", []) (.list st.reverse)) := by
+  refine ⟨by simp [h.depth], h.params0, ?_, by simp [h.ctxVals], by simp [h.inputs], by simp [h.register], by simp [h.ghost],
+    by simp [h.out], by simp [h.printed], by simp [h.retain], by simp [h.useTop], by simp [h.stacks], by simp [h.fnStack],
+    ?_, ?_, ?_, by simp [h.fnsLen], by simpa using h.lams, ?_⟩
+  · exact getVar_setVar_eq _ _ _
+  · intro x hx hl hf
+    by_cases hd : π.depth = 0
+    · rw [setVar_globals_d0 _ _ _ hd, lookupP_setP_ne]; exact h.gvars x hx hl hf
+      intro he; injection he with h1 _; exact absurd h1 (by decide)
+    · rw [setVar_globals_pos _ _ _ hd]; exact h.gvars x hx hl hf
+  · intro hpos x hx hl
+    have hd : π.depth ≠ 0 := by rw [h.depth]; exact Nat.pos_iff_ne_zero.mp hpos
+    rw [setVar_locals_pos _ _ _ hd, lookupP_setP_ne]; exact h.lvars hpos x hx hl
+    intro he; injection he with h1 _; exact absurd h1 (by decide)
+  · intro f hj hs
+    rw [getVar_setVar_ne]; exact h.clean f hj hs
+    intro he; injection he with h1 _; exact hs h1
+  · rw [getVar_setVar_ne]; exact h.argVar
+    intro he; injection he with h1 _; exact absurd h1 (by decide)
 
-theorem Rel.getStack {σ : RSt} {π : PSt} (h : Rel σ π) : π.getVar ("stack", []) = some (.list σ.stack.reverse) := by
-  rw [getVar_d0 _ _ h.pd0]; exact h.stack
+/-- reading a program variable: the frame first, then the module -/
+theorem Rel.getVar_prog {σ : RSt} {π : PSt} (h : Rel env A σ π) (x : Str) (hx : x ≠ []) (hl : isLoopName x = false)
+    (hf : lookupKV x σ.funcs = Option.none) :
+    π.getVar ("VAR_", x) = (match lookupKV x σ.params with
+      | some v => some v
+      | Option.none => lookupKV x σ.globals) := by
+  unfold PSt.getVar
+  by_cases hd : π.depth = 0
+  · have hd0 : σ.depth = 0 := by rw [← h.depth]; exact hd
+    simp only [hd, ↓reduceIte, h.params0 hd0, lookupKV]
+    exact h.gvars x hx hl hf
+  · have hpos : 0 < σ.depth := by rw [← h.depth]; omega
+    simp only [hd, ↓reduceIte, h.lvars hpos x hx hl]
+    cases lookupKV x σ.params with
+    | some v => rfl
+    | none => exact h.gvars x hx hl hf
 
-end Vy.Sem
+theorem pop1_depth (σ : RSt) : σ.pop1.2.depth = σ.depth := by
+  simp only [RSt.pop1]; split <;> rfl
 
-namespace Vy.Sem
-open Vy PyAst
+theorem Rel.getStack {σ : RSt} {π : PSt} (h : Rel env A σ π) : π.getVar ("stack", []) = some (.list σ.stack.reverse) := h.stack
 
-theorem Rel.setInputs {σ : RSt} {π : PSt} (h : Rel σ π) (ins : List (List Val × Nat)) :
-    Rel { σ with inputs := ins } { π with inputs := ins } :=
-  ⟨h.d0, h.params, h.pd0, h.stack, h.ctxVals, rfl, h.register, h.ghost, h.out, h.printed, h.retain, h.useTop, h.vars, h.clean⟩
-
+theorem Rel.setInputs {σ : RSt} {π : PSt} (h : Rel env A σ π) (ins : List (List Val × Nat)) :
+    Rel env A { σ with inputs := ins } { π with inputs := ins } :=
+  ⟨h.depth, h.params0, h.stack, h.ctxVals, rfl, h.register, h.ghost, h.out, h.printed, h.retain, h.useTop, h.stacks, h.fnStack,
+   h.gvars, h.lvars, h.clean, h.fnsLen, h.lams, h.argVar⟩
 
 @[simp] theorem specialOf_pop : specialOf "pop" = some .pop := by decide
 @[simp] theorem specialOf_wrapify : specialOf "wrapify" = some .wrapify := by decide
@@ -108,7 +169,7 @@ theorem Rel.setInputs {σ : RSt} {π : PSt} (h : Rel σ π) (ins : List (List Va
 def popPi (σ : RSt) (π : PSt) (k : Nat) : PSt :=
   ({ π with inputs := (popN k σ.stack σ.inputs).2.2 }).setVar ("stack", []) (.list (popN k σ.stack σ.inputs).2.1.reverse)
 
-theorem rel_popPi {σ : RSt} {π : PSt} (h : Rel σ π) (k : Nat) : Rel (σ.popK k).2 (popPi σ π k) := by
+theorem rel_popPi {σ : RSt} {π : PSt} (h : Rel env A σ π) (k : Nat) : Rel env A (σ.popK k).2 (popPi σ π k) := by
   have h1 := (h.setInputs (popN k σ.stack σ.inputs).2.2).setStack (popN k σ.stack σ.inputs).2.1
   simpa [RSt.popK, popPi] using h1
 
@@ -118,7 +179,7 @@ def popVal (k : Nat) (p : List Val) : Val :=
   | 1, [v] => v
   | _, p => .list p
 
-theorem eval_pop_nat {σ : RSt} {π : PSt} (cfg : Cfg) (n : Nat) (h : Rel σ π) (k : Nat)
+theorem eval_pop_nat {σ : RSt} {π : PSt} (cfg : Cfg) (n : Nat) (h : Rel env A σ π) (k : Nat)
     (rest : List PyExpr) (kw : List (String × PyExpr)) :
     evalE cfg n (.call (.name "pop") (.name "stack" :: .cint (k : Int) :: rest) kw) π =
         .ok (popVal k (σ.popK k).1, popPi σ π k) := by
@@ -128,7 +189,7 @@ theorem eval_pop_nat {σ : RSt} {π : PSt} (cfg : Cfg) (n : Nat) (h : Rel σ π)
   simp only [hk, ↓reduceIte, R_ok_bind]
   split <;> simp_all
 
-theorem eval_pop {σ : RSt} {π : PSt} (cfg : Cfg) (n : Nat) (h : Rel σ π) (i : Int) (k : Nat) (hik : i = (k : Int))
+theorem eval_pop {σ : RSt} {π : PSt} (cfg : Cfg) (n : Nat) (h : Rel env A σ π) (i : Int) (k : Nat) (hik : i = (k : Int))
     (rest : List PyExpr) (kw : List (String × PyExpr)) :
     evalE cfg n (.call (.name "pop") (.name "stack" :: .cint i :: rest) kw) π =
         .ok (popVal k (σ.popK k).1, popPi σ π k) := by
@@ -142,28 +203,28 @@ theorem popK_one (σ : RSt) : (σ.popK 1).1 = [σ.pop1.1] ∧ (σ.popK 1).2 = σ
     rw [hp] at hl; simp at hl; subst hl; simp
   | ([], st, ins) => rw [hp] at hl; simp at hl
 
-theorem eval_pop1kw {σ : RSt} {π : PSt} (cfg : Cfg) (n : Nat) (h : Rel σ π) :
+theorem eval_pop1kw {σ : RSt} {π : PSt} (cfg : Cfg) (n : Nat) (h : Rel env A σ π) :
     evalE cfg n pop1kw π = .ok (σ.pop1.1, popPi σ π 1) := by
   have := eval_pop cfg n h 1 1 rfl [] kwCtx
   simp only [pop1kw, stackE]
   rw [this, (popK_one σ).1]; rfl
 
-theorem eval_pop1pos {σ : RSt} {π : PSt} (cfg : Cfg) (n : Nat) (h : Rel σ π) :
+theorem eval_pop1pos {σ : RSt} {π : PSt} (cfg : Cfg) (n : Nat) (h : Rel env A σ π) :
     evalE cfg n pop1pos π = .ok (σ.pop1.1, popPi σ π 1) := by
   have := eval_pop cfg n h 1 1 rfl [ctxE] []
   simp only [pop1pos, stackE]
   rw [this, (popK_one σ).1]; rfl
 
-theorem rel_pop1 {σ : RSt} {π : PSt} (h : Rel σ π) : Rel σ.pop1.2 (popPi σ π 1) := by
+theorem rel_pop1 {σ : RSt} {π : PSt} (h : Rel env A σ π) : Rel env A σ.pop1.2 (popPi σ π 1) := by
   have := rel_popPi h 1
   rwa [(popK_one σ).2] at this
 
 /-! ### `stack.append(e)` and assignments to template-local names -/
 
 theorem exec_push {σ1 : RSt} {π π1 : PSt} (cfg : Cfg) (n : Nat) (e : PyExpr) (v : Val)
-    (he : evalE cfg n e π = .ok (v, π1)) (h1 : Rel σ1 π1) :
+    (he : evalE cfg n e π = .ok (v, π1)) (h1 : Rel env A σ1 π1) :
     execPS cfg n (push e) π = .ok (.normal, π1.setVar ("stack", []) (.list ((v :: σ1.stack).reverse))) ∧
-    Rel (σ1.push v) (π1.setVar ("stack", []) (.list ((v :: σ1.stack).reverse))) := by
+    Rel env A (σ1.push v) (π1.setVar ("stack", []) (.list ((v :: σ1.stack).reverse))) := by
   constructor
   · simp [push, stackE, execPS, he, h1.getStack]
   · exact h1.setStack (v :: σ1.stack)
@@ -175,20 +236,15 @@ theorem exec_assign_name (cfg : Cfg) (n : Nat) (x : String) (e : PyExpr) (v : Va
 
 /-! ### the `process_element` boilerplate -/
 
-def popStackE (k : Int) : PyExpr := .call (.name "pop") [.name "stack", .cint k, .name "ctx"] []
-def appendCall (f : String) (args : List PyExpr) : PyStmt :=
-  .expr (.call (.attr (.name "stack") "append") [.call (.name f) args [("ctx", .name "ctx")]] [])
-
 theorem evalE_name (cfg : Cfg) (n : Nat) (x : String) (π : PSt) (v : Val) (h : π.getVar (x, []) = some v) :
     evalE cfg n (.name x) π = .ok (v, π) := by
   simp [evalE, h]
 
-theorem Rel.clean' {σ : RSt} {π : PSt} (h : Rel σ π) (f : String) (hj : f ∉ junkNames) (hs : f ≠ "stack") :
-    π.getVar (f, []) = Option.none := by
-  rw [getVar_d0 _ _ h.pd0]; exact h.clean f hj hs
+theorem Rel.clean' {σ : RSt} {π : PSt} (h : Rel env A σ π) (f : String) (hj : f ∉ junkNames) (hs : f ≠ "stack") :
+    π.getVar (f, []) = Option.none := h.clean f hj hs
 
 /-- calling an element function by name -/
-theorem eval_elemCall {σ : RSt} {π : PSt} (cfg : Cfg) (n : Nat) (h : Rel σ π) (f : String) (args : List PyExpr) (vs : List Val)
+theorem eval_elemCall {σ : RSt} {π : PSt} (cfg : Cfg) (n : Nat) (h : Rel env A σ π) (f : String) (args : List PyExpr) (vs : List Val)
     (r : Val) (hsp : specialOf f = Option.none) (hj : f ∉ junkNames) (hs : f ≠ "stack")
     (hargs : evalArgs cfg n args π = .ok (vs, π)) (hnf : ∀ x ∈ vs, isFnVal x = false) (hr : elemFn f vs = .ok r)
     (kw : List (String × PyExpr) := [("ctx", .name "ctx")]) :
@@ -196,19 +252,13 @@ theorem eval_elemCall {σ : RSt} {π : PSt} (cfg : Cfg) (n : Nat) (h : Rel σ π
   simp [evalE, hsp, callVar, h.clean' f hj hs, hargs, hr]
   exact hnf
 
-def boilerplate : Nat → String → List PyStmt
-  | 0, f => [.assign [.name "_"] (popStackE 0), appendCall f []]
-  | 1, f => [.assign [.name "lhs"] (popStackE 1), appendCall f [.name "lhs"]]
-  | 2, f => [.assign [.tuple [.name "rhs", .name "lhs"]] (popStackE 2), appendCall f [.name "lhs", .name "rhs"]]
-  | _, f => [.assign [.tuple [.name "third", .name "rhs", .name "lhs"]] (popStackE 3), appendCall f [.name "lhs", .name "rhs", .name "third"]]
-
 theorem popK_len (σ : RSt) (k : Nat) : (σ.popK k).1.length = k := by
   simp [RSt.popK, popN_length]
 
-theorem exec_appendCall {σ : RSt} {π : PSt} (cfg : Cfg) (n : Nat) (h : Rel σ π) (f : String) (args : List PyExpr) (vs : List Val)
+theorem exec_appendCall {σ : RSt} {π : PSt} (cfg : Cfg) (n : Nat) (h : Rel env A σ π) (f : String) (args : List PyExpr) (vs : List Val)
     (r : Val) (hsp : specialOf f = Option.none) (hj : f ∉ junkNames) (hs : f ≠ "stack")
     (hargs : evalArgs cfg n args π = .ok (vs, π)) (hnf : ∀ x ∈ vs, isFnVal x = false) (hr : elemFn f vs = .ok r) :
-    ∃ π', execPS cfg n (appendCall f args) π = .ok (.normal, π') ∧ Rel (σ.push r) π' := by
+    ∃ π', execPS cfg n (appendCall f args) π = .ok (.normal, π') ∧ Rel env A (σ.push r) π' := by
   have hc := eval_elemCall cfg n h f args vs r hsp hj hs hargs hnf hr
   obtain ⟨he, hR⟩ := exec_push cfg n _ r hc h
   exact ⟨_, he, hR⟩
@@ -224,10 +274,10 @@ theorem exec_assign_tuple3 (cfg : Cfg) (n : Nat) (x y z : String) (e : PyExpr) (
       .ok (.normal, ((π1.setVar (x, []) a).setVar (y, []) b).setVar (z, []) c) := by
   simp [execPS, he, assignTo, List.foldlM]
 
-theorem exec_boilerplate {σ : RSt} {π : PSt} (cfg : Cfg) (n : Nat) (h : Rel σ π) (k : Nat) (hk : k ≤ 3) (f : String)
+theorem exec_boilerplate {σ : RSt} {π : PSt} (cfg : Cfg) (n : Nat) (h : Rel env A σ π) (k : Nat) (hk : k ≤ 3) (f : String)
     (r : Val) (hsp : specialOf f = Option.none) (hj : f ∉ junkNames) (hs : f ≠ "stack")
     (hnf : ∀ x ∈ (σ.popK k).1, isFnVal x = false) (hr : elemFn f (σ.popK k).1.reverse = .ok r) :
-    ∃ π', execPL cfg n (boilerplate k f) π = .ok (.normal, π') ∧ Rel ((σ.popK k).2.push r) π' := by
+    ∃ π', execPL cfg n (boilerplate k f) π = .ok (.normal, π') ∧ Rel env A ((σ.popK k).2.push r) π' := by
   have hl := popK_len σ k
   have hrel := rel_popPi h k
   match k, hk with
@@ -299,28 +349,10 @@ theorem exec_boilerplate {σ : RSt} {π : PSt} (cfg : Cfg) (n : Nat) (h : Rel σ
     exact ⟨π', by rw [he]; simp [execPL], hR⟩
 
 
-def isBoilerplate : List PyStmt → Option (Nat × String)
-  | [.assign [.name "_"] (.call (.name "pop") [.name "stack", .cint 0, .name "ctx"] []),
-     .expr (.call (.attr (.name "stack") "append") [.call (.name f) [] [("ctx", .name "ctx")]] [])] => some (0, f)
-  | [.assign [.name "lhs"] (.call (.name "pop") [.name "stack", .cint 1, .name "ctx"] []),
-     .expr (.call (.attr (.name "stack") "append") [.call (.name f) [.name "lhs"] [("ctx", .name "ctx")]] [])] => some (1, f)
-  | [.assign [.tuple [.name "rhs", .name "lhs"]] (.call (.name "pop") [.name "stack", .cint 2, .name "ctx"] []),
-     .expr (.call (.attr (.name "stack") "append") [.call (.name f) [.name "lhs", .name "rhs"] [("ctx", .name "ctx")]] [])] => some (2, f)
-  | [.assign [.tuple [.name "third", .name "rhs", .name "lhs"]] (.call (.name "pop") [.name "stack", .cint 3, .name "ctx"] []),
-     .expr (.call (.attr (.name "stack") "append") [.call (.name f) [.name "lhs", .name "rhs", .name "third"] [("ctx", .name "ctx")]] [])] => some (3, f)
-  | _ => none
-
-theorem isBoilerplate_sound (b : List PyStmt) (k : Nat) (f : String) (h : isBoilerplate b = some (k, f)) :
-    b = boilerplate k f := by
-  unfold isBoilerplate at h
-  split at h <;> simp at h <;> obtain ⟨h1, h2⟩ := h <;> subst h1 <;> subst h2 <;> rfl
-
-
-/-! ### context values, conditions, `if` -/
-
-theorem Rel.setCtxVals {σ : RSt} {π : PSt} (h : Rel σ π) (cv : List Val) :
-    Rel { σ with ctxVals := cv } { π with ctxVals := cv } :=
-  ⟨h.d0, h.params, h.pd0, h.stack, rfl, h.inputs, h.register, h.ghost, h.out, h.printed, h.retain, h.useTop, h.vars, h.clean⟩
+theorem Rel.setCtxVals {σ : RSt} {π : PSt} (h : Rel env A σ π) (cv : List Val) :
+    Rel env A { σ with ctxVals := cv } { π with ctxVals := cv } :=
+  ⟨h.depth, h.params0, h.stack, rfl, h.inputs, h.register, h.ghost, h.out, h.printed, h.retain, h.useTop, h.stacks, h.fnStack,
+   h.gvars, h.lvars, h.clean, h.fnsLen, h.lams, h.argVar⟩
 
 theorem exec_ctxAppend (cfg : Cfg) (n : Nat) (e : PyExpr) (v : Val) (π : PSt) (he : evalE cfg n e π = .ok (v, π)) :
     execPS cfg n (ctxCall "context_values" "append" [e]) π = .ok (.normal, { π with ctxVals := v :: π.ctxVals }) := by
@@ -331,9 +363,9 @@ theorem exec_ctxPop (cfg : Cfg) (n : Nat) (π : PSt) (x : Val) (r : List Val) (h
   simp [ctxCall, ctxE, execPS, ctxListOp, h]
 
 /-- `condition = pop(stack, 1, ctx=ctx)` -/
-theorem exec_condPop {σ : RSt} {π : PSt} (cfg : Cfg) (n : Nat) (h : Rel σ π) :
+theorem exec_condPop {σ : RSt} {π : PSt} (cfg : Cfg) (n : Nat) (h : Rel env A σ π) :
     execPS cfg n condPop π = .ok (.normal, (popPi σ π 1).setVar ("condition", []) σ.pop1.1) ∧
-    Rel σ.pop1.2 ((popPi σ π 1).setVar ("condition", []) σ.pop1.1) := by
+    Rel env A σ.pop1.2 ((popPi σ π 1).setVar ("condition", []) σ.pop1.1) := by
   constructor
   · simp only [condPop, assign1, nm]
     exact exec_assign_name cfg n "condition" _ _ π _ (eval_pop1kw cfg n h)
@@ -349,9 +381,9 @@ theorem eval_boolifyCond (cfg : Cfg) (n : Nat) (π : PSt) (x : Val) (h : π.getV
 
 /-- `code` simulates `prog` at fuel `n`: from related states, whenever the reference semantics is defined, the
     Python semantics yields the corresponding signal and a related state -/
-def Sims (cfg : Cfg) (n : Nat) (prog : List Structure) (code : List PyStmt) : Prop :=
-  ∀ σ π sg σ', Rel σ π → execL cfg n prog σ = .ok (sg, σ') →
-    ∃ π', execPL cfg n code π = .ok (sigP sg, π') ∧ Post sg σ' π'
+def Sims (cfg : Cfg) (env : TEnv) (n : Nat) (prog : List Structure) (code : List PyStmt) : Prop :=
+  ∀ (A : Option Val) σ π sg σ', Rel env A σ π → execL cfg n prog σ = .ok (sg, σ') →
+    ∃ π', execPL cfg n code π = .ok (sigP sg, π') ∧ Post env A sg σ' π'
 
 inductive All2 {α β} (R : α → β → Prop) : List α → List β → Prop
   | nil : All2 R [] []
@@ -368,21 +400,21 @@ theorem exec_if (cfg : Cfg) (n : Nat) (π : PSt) (x : Val) (t e : List PyStmt) (
   simp [execPS, eval_boolifyCond cfg n π x h]
 
 theorem sim_ifChain (cfg : Cfg) (n : Nat) :
-    ∀ (bs : List (List Structure)) (cs : List (List PyStmt)), All2 (Sims cfg n) bs cs →
-    ∀ σ π sg σ', Rel σ π → execIf cfg n bs σ = .ok (sg, σ') →
-      ∃ π', execPL cfg n (ifChain cs) π = .ok (sigP sg, π') ∧ Post sg σ' π'
+    ∀ (bs : List (List Structure)) (cs : List (List PyStmt)), All2 (Sims cfg env n) bs cs →
+    ∀ σ π sg σ', Rel env A σ π → execIf cfg n bs σ = .ok (sg, σ') →
+      ∃ π', execPL cfg n (ifChain cs) π = .ok (sigP sg, π') ∧ Post env A sg σ' π'
   | [], [], _, σ, π, sg, σ', h, hr => by
       simp [execIf] at hr; obtain ⟨h1, h2⟩ := hr; subst h1; subst h2
       exact ⟨π, by simp [ifChain, execPL, sigP], h⟩
   | [b0], [c0], hall, σ, π, sg, σ', h, hr => by
       obtain ⟨hc, hR⟩ := exec_condPop cfg n h
-      have h0 : Sims cfg n b0 c0 := by cases hall; assumption
+      have h0 : Sims cfg env n b0 c0 := by cases hall; assumption
       simp only [execIf] at hr
       simp only [ifChain, execPL_cons, hc]
       rw [exec_if cfg n _ σ.pop1.1 _ _ (getVar_setVar_eq _ _ _)]
       by_cases ht : truthy σ.pop1.1
       · simp only [ht, ↓reduceIte] at hr ⊢
-        obtain ⟨π', he, hP⟩ := h0 _ _ _ _ hR hr
+        obtain ⟨π', he, hP⟩ := h0 _ _ _ _ _ hR hr
         refine ⟨π', ?_, hP⟩
         rw [he]; cases sg <;> simp [sigP, execPL]
       · simp only [ht] at hr ⊢
@@ -390,16 +422,16 @@ theorem sim_ifChain (cfg : Cfg) (n : Nat) :
         exact ⟨_, by simp [execPL, sigP], hR⟩
   | b0 :: b1 :: rest, c0 :: c1 :: crest, hall, σ, π, sg, σ', h, hr => by
       obtain ⟨hc, hR⟩ := exec_condPop cfg n h
-      have h0 : Sims cfg n b0 c0 := by cases hall; assumption
-      have h1 : Sims cfg n b1 c1 := by cases hall with | cons _ t => cases t; assumption
-      have hrest : All2 (Sims cfg n) rest crest := by cases hall with | cons _ t => cases t; assumption
+      have h0 : Sims cfg env n b0 c0 := by cases hall; assumption
+      have h1 : Sims cfg env n b1 c1 := by cases hall with | cons _ t => cases t; assumption
+      have hrest : All2 (Sims cfg env n) rest crest := by cases hall with | cons _ t => cases t; assumption
       simp only [execIf] at hr
       rw [ifChain_cons2]
       simp only [execPL_cons, hc]
       rw [exec_if cfg n _ σ.pop1.1 _ _ (getVar_setVar_eq _ _ _)]
       by_cases ht : truthy σ.pop1.1
       · simp only [ht, ↓reduceIte] at hr ⊢
-        obtain ⟨π', he, hP⟩ := h0 _ _ _ _ hR hr
+        obtain ⟨π', he, hP⟩ := h0 _ _ _ _ _ hR hr
         refine ⟨π', ?_, hP⟩
         rw [he]; cases sg <;> simp [sigP, execPL]
       · simp only [ht] at hr ⊢
@@ -408,7 +440,7 @@ theorem sim_ifChain (cfg : Cfg) (n : Nat) :
         | error e => simp [hb] at hr
         | ok r =>
           obtain ⟨sg1, σ1⟩ := r
-          obtain ⟨π1, he1, hP1⟩ := h1 _ _ _ _ hR hb
+          obtain ⟨π1, he1, hP1⟩ := h1 _ _ _ _ _ hR hb
           simp only [hb, R_ok_bind] at hr
           rw [execPL_append, he1]
           cases sg1 with
@@ -419,7 +451,7 @@ theorem sim_ifChain (cfg : Cfg) (n : Nat) :
             rw [he]; cases sg <;> simp [sigP, execPL]
           | brk => simp at hr; obtain ⟨h1, h2⟩ := hr; subst h1; subst h2; exact ⟨π1, by simp [sigP, execPL], hP1⟩
           | cont => simp at hr; obtain ⟨h1, h2⟩ := hr; subst h1; subst h2; exact ⟨π1, by simp [sigP, execPL], hP1⟩
-          | ret v => exact absurd hP1 (by simp [Post])
+          | ret v => simp at hr; obtain ⟨h1, h2⟩ := hr; subst h1; subst h2; exact ⟨π1, by simp [sigP, execPL], hP1⟩
   | [], _ :: _, hall, _, _, _, _, _, _ => by cases hall
   | _ :: _, [], hall, _, _, _, _, _, _ => by cases hall
   | [_], _ :: _ :: _, hall, _, _, _, _, _, _ => by cases hall with | cons _ t => cases t
@@ -436,43 +468,39 @@ theorem isLoopName_loopName (k : Nat) : isLoopName (loopName k) = true := by
 theorem loopName_ne_nil (k : Nat) : loopName k ≠ [] := by simp [loopName]
 
 /-- the Python variable of an unnamed loop is outside the relation -/
-theorem Rel.setLoopVar {σ : RSt} {π : PSt} (h : Rel σ π) (nm : Str) (hn : isLoopName nm = true) (hne : nm ≠ []) (v : Val) :
-    Rel σ (π.setVar ("VAR_", nm) v) := by
-  refine ⟨h.d0, h.params, by simp [h.pd0], ?_, by simp [h.ctxVals], by simp [h.inputs], by simp [h.register], by simp [h.ghost],
-    by simp [h.out], by simp [h.printed], by simp [h.retain], by simp [h.useTop], ?_, ?_⟩
-  · rw [setVar_d0 _ _ _ h.pd0]; simp only
-    rw [lookupP_setP_ne]; exact h.stack
-    intro he; injection he with h1 h2; exact absurd h1 (by decide)
-  · intro x hx hl
-    rw [setVar_d0 _ _ _ h.pd0]; simp only
-    rw [lookupP_setP_ne]; exact h.vars x hx hl
-    intro he; injection he with h1 h2; subst h2; rw [hn] at hl; exact absurd hl (by decide)
-  · intro f hj hs
-    rw [setVar_d0 _ _ _ h.pd0]; simp only
-    rw [lookupP_setP_ne]; exact h.clean f hj hs
-    intro he; injection he with h1 h2; exact hne h2.symm
+theorem Rel.setLoopVar {σ : RSt} {π : PSt} (h : Rel env A σ π) (nm : Str) (hn : isLoopName nm = true) (hne : nm ≠ []) (v : Val) :
+    Rel env A σ (π.setVar ("VAR_", nm) v) := by
+  apply h.setVarFrame
+  · intro he; injection he with h1 _; exact absurd h1 (by decide)
+  · intro x _ hl he; injection he with _ h2; subst h2; rw [hn] at hl; exact absurd hl (by decide)
+  · intro f _ he; injection he with _ h2; exact hne h2
+  · intro he; injection he with h1 _; exact absurd h1 (by decide)
 
-/-- a program variable -/
-theorem Rel.setProgVar {σ : RSt} {π : PSt} (h : Rel σ π) (nm : Str) (hne : nm ≠ []) (v : Val) :
-    Rel { σ with globals := setKV nm v σ.globals } (π.setVar ("VAR_", nm) v) := by
-  refine ⟨h.d0, h.params, by simp [h.pd0], ?_, by simp [h.ctxVals], by simp [h.inputs], by simp [h.register], by simp [h.ghost],
-    by simp [h.out], by simp [h.printed], by simp [h.retain], by simp [h.useTop], ?_, ?_⟩
-  · rw [setVar_d0 _ _ _ h.pd0]; simp only
-    rw [lookupP_setP_ne]; exact h.stack
-    intro he; injection he with h1 h2; exact absurd h1 (by decide)
-  · intro x hx hl
-    rw [setVar_d0 _ _ _ h.pd0]; simp only
+/-- a program variable at module level -/
+theorem Rel.setProgVar {σ : RSt} {π : PSt} (h : Rel env A σ π) (hd0 : σ.depth = 0) (nm : Str) (hne : nm ≠ []) (v : Val) :
+    Rel env A { σ with globals := setKV nm v σ.globals } (π.setVar ("VAR_", nm) v) := by
+  have hd : π.depth = 0 := by rw [h.depth]; exact hd0
+  refine ⟨by simp [h.depth], h.params0, ?_, by simp [h.ctxVals], by simp [h.inputs], by simp [h.register], by simp [h.ghost],
+    by simp [h.out], by simp [h.printed], by simp [h.retain], by simp [h.useTop], by simp [h.stacks], by simp [h.fnStack],
+    ?_, ?_, ?_, by simp [h.fnsLen], by simpa using h.lams, ?_⟩
+  · rw [getVar_setVar_ne]; exact h.stack
+    intro he; injection he with h1 _; exact absurd h1 (by decide)
+  · intro x hx hl hf
+    rw [setVar_globals_d0 _ _ _ hd]
     by_cases hxn : x = nm
     · subst hxn; rw [lookupP_setP_eq, lookupKV_setKV_eq]
-    · rw [lookupP_setP_ne, lookupKV_setKV_ne _ _ _ _ hxn]; exact h.vars x hx hl
-      intro he; injection he with h1 h2; exact hxn h2
+    · rw [lookupP_setP_ne, lookupKV_setKV_ne _ _ _ _ hxn]; exact h.gvars x hx hl hf
+      intro he; injection he with _ h2; exact hxn h2
+  · intro hpos; exact absurd hd0 (by simp only at hpos; omega)
   · intro f hj hs
-    rw [setVar_d0 _ _ _ h.pd0]; simp only
-    rw [lookupP_setP_ne]; exact h.clean f hj hs
-    intro he; injection he with h1 h2; exact hne h2.symm
+    rw [getVar_setVar_ne]; exact h.clean f hj hs
+    intro he; injection he with _ h2; exact hne h2.symm
+  · rw [getVar_setVar_ne]; exact h.argVar
+    intro he; injection he with h1 _; exact absurd h1 (by decide)
 
-theorem Rel.setGhost {σ : RSt} {π : PSt} (h : Rel σ π) (v : Val) : Rel { σ with ghost := v } { π with ghost := v } :=
-  ⟨h.d0, h.params, h.pd0, h.stack, h.ctxVals, h.inputs, h.register, rfl, h.out, h.printed, h.retain, h.useTop, h.vars, h.clean⟩
+theorem Rel.setGhost {σ : RSt} {π : PSt} (h : Rel env A σ π) (v : Val) : Rel env A { σ with ghost := v } { π with ghost := v } :=
+  ⟨h.depth, h.params0, h.stack, h.ctxVals, h.inputs, h.register, rfl, h.out, h.printed, h.retain, h.useTop, h.stacks, h.fnStack,
+   h.gvars, h.lvars, h.clean, h.fnsLen, h.lams, h.argVar⟩
 
 /-- the loop variable of a `for`: what the reference loop binds and the Python target -/
 inductive ForVar : Option Str → PyExpr → Prop
@@ -480,8 +508,9 @@ inductive ForVar : Option Str → PyExpr → Prop
   | ghost : ForVar (some []) (.attr ctxE "ghost_variable")
   | named (v : Str) (hv : v ≠ []) : ForVar (some v) (.pname "VAR_" v)
 
-theorem for_bind {σ : RSt} {π : PSt} (cfg : Cfg) (n : Nat) {var : Option Str} {pvar : PyExpr} (hv : ForVar var pvar) (h : Rel σ π) (x : Val) :
-    ∃ π0, assignTo pvar x π = .ok π0 ∧ Rel (bindFor var x σ) π0 ∧ evalE cfg n pvar π0 = .ok (x, π0) := by
+theorem for_bind {σ : RSt} {π : PSt} (cfg : Cfg) (n : Nat) {var : Option Str} {pvar : PyExpr} (hv : ForVar var pvar) (h : Rel env A σ π) (x : Val)
+    (hd : namedVar var = true → σ.depth = 0) :
+    ∃ π0, assignTo pvar x π = .ok π0 ∧ Rel env A (bindFor var x σ) π0 ∧ evalE cfg n pvar π0 = .ok (x, π0) := by
   cases hv with
   | unnamed k =>
     refine ⟨π.setVar ("VAR_", loopName k) x, by simp [assignTo], ?_, ?_⟩
@@ -495,12 +524,12 @@ theorem for_bind {σ : RSt} {π : PSt} (cfg : Cfg) (n : Nat) {var : Option Str} 
     refine ⟨π.setVar ("VAR_", v) x, by simp [assignTo], ?_, ?_⟩
     · cases v with
       | nil => exact absurd rfl hv
-      | cons c cs => exact h.setProgVar _ hv x
+      | cons c cs => exact h.setProgVar (hd rfl) _ hv x
     · simp [evalE, getVar_setVar_eq]
 
 
 /-- `Sims` at every fuel -/
-def SimsAll (cfg : Cfg) (prog : List Structure) (code : List PyStmt) : Prop := ∀ n, Sims cfg n prog code
+def SimsAll (cfg : Cfg) (env : TEnv) (prog : List Structure) (code : List PyStmt) : Prop := ∀ n, Sims cfg env n prog code
 
 theorem dropCtx_cons (σ : RSt) (x : Val) (r : List Val) (h : σ.ctxVals = x :: r) : σ.dropCtx = .ok { σ with ctxVals := r } := by
   simp [RSt.dropCtx, h]
@@ -513,89 +542,98 @@ theorem dropCtx_ok {σ σ2 : RSt} (h : σ.dropCtx = .ok σ2) : ∃ x r, σ.ctxVa
 
 /-- one iteration body of a loop: push the context value, run, pop -/
 theorem sim_loopBody {σ : RSt} {π : PSt} (cfg : Cfg) (n : Nat) (body : List Structure) (pbody : List PyStmt)
-    (hb : Sims cfg n body pbody) (e : PyExpr) (x : Val) (h : Rel σ π) (he : evalE cfg n e π = .ok (x, π))
+    (hb : Sims cfg env n body pbody) (e : PyExpr) (x : Val) (h : Rel env A σ π) (he : evalE cfg n e π = .ok (x, π))
     (sg : Sig) (σ1 σ2 : RSt) (hr : execL cfg n body { σ with ctxVals := x :: σ.ctxVals } = .ok (sg, σ1))
-    (hd : σ1.dropCtx = .ok σ2) :
+    (hd : σ1.dropCtx = .ok σ2) (hnr : ∀ v, sg ≠ .ret v) :
     ∃ π2, execPL cfg n ([ctxCall "context_values" "append" [e]] ++ pbody ++ [ctxCall "context_values" "pop" []]) π =
-        .ok (sigP sg, π2) ∧ Rel σ2 π2 ∧ (∀ v, sg ≠ .ret v) := by
-  have hR0 : Rel { σ with ctxVals := x :: σ.ctxVals } { π with ctxVals := x :: π.ctxVals } := by
+        .ok (sigP sg, π2) ∧ Rel env A σ2 π2 := by
+  have hR0 : Rel env A { σ with ctxVals := x :: σ.ctxVals } { π with ctxVals := x :: π.ctxVals } := by
     have := h.setCtxVals (x :: σ.ctxVals); rwa [h.ctxVals]
-  obtain ⟨π1, he1, hP1⟩ := hb _ _ _ _ hR0 hr
+  obtain ⟨π1, he1, hP1⟩ := hb _ _ _ _ _ hR0 hr
   simp only [List.cons_append, List.nil_append, execPL_cons, exec_ctxAppend cfg n e x π he]
   rw [execPL_append, he1]
   cases sg with
   | normal =>
     obtain ⟨y, r, hc, h2⟩ := dropCtx_ok hd
-    have hP1' : Rel σ1 π1 := hP1
+    have hP1' : Rel env A σ1 π1 := hP1
     have hpc : π1.ctxVals = y :: r := by rw [hP1'.ctxVals, hc]
     simp only [sigP, execPL_cons, exec_ctxPop cfg n π1 y r hpc, execPL]
-    refine ⟨_, rfl, ?_, by intro v; simp⟩
+    refine ⟨_, rfl, ?_⟩
     subst h2; exact hP1'.setCtxVals r
   | brk =>
     obtain ⟨σ2', hd', hR⟩ := hP1
     rw [hd] at hd'; injection hd' with hd'; subst hd'
-    exact ⟨π1, by simp [sigP], hR, by intro v; simp⟩
+    exact ⟨π1, by simp [sigP], hR⟩
   | cont =>
     obtain ⟨σ2', hd', hR⟩ := hP1
     rw [hd] at hd'; injection hd' with hd'; subst hd'
-    exact ⟨π1, by simp [sigP], hR, by intro v; simp⟩
-  | ret v => exact absurd hP1 (by simp [Post])
+    exact ⟨π1, by simp [sigP], hR⟩
+  | ret v => exact absurd rfl (hnr v)
 
-theorem sim_for (cfg : Cfg) (body : List Structure) (pbody : List PyStmt) (hb : SimsAll cfg body pbody)
+theorem sim_for (cfg : Cfg) (N : Nat) (body : List Structure) (pbody : List PyStmt) (hb : ∀ m, m < N → Sims cfg env m body pbody)
     (var : Option Str) (pvar : PyExpr) (hv : ForVar var pvar) :
-    ∀ (n : Nat) (items : List Val) (σ : RSt) (π : PSt) (sg : Sig) (σ' : RSt), Rel σ π →
+    ∀ (n : Nat), n ≤ N → ∀ (items : List Val) (σ : RSt) (π : PSt) (sg : Sig) (σ' : RSt), Rel env A σ π →
       forLoop cfg n var body items σ = .ok (sg, σ') →
       ∃ π', forPy cfg n pvar ([ctxCall "context_values" "append" [pvar]] ++ pbody ++ [ctxCall "context_values" "pop" []]) items π =
-          .ok (sigP sg, π') ∧ Post sg σ' π'
-  | n, [], σ, π, sg, σ', h, hr => by
+          .ok (sigP sg, π') ∧ Post env A sg σ' π'
+  | n, _, [], σ, π, sg, σ', h, hr => by
       simp [forLoop] at hr; obtain ⟨h1, h2⟩ := hr; subst h1; subst h2
       exact ⟨π, by simp [forPy, sigP], h⟩
-  | 0, x :: xs, σ, π, sg, σ', h, hr => by simp [forLoop] at hr
-  | n + 1, x :: xs, σ, π, sg, σ', h, hr => by
-      obtain ⟨π0, ha, hR0, hev⟩ := for_bind cfg n hv h x
+  | 0, _, x :: xs, σ, π, sg, σ', h, hr => by simp [forLoop] at hr
+  | n + 1, hn, x :: xs, σ, π, sg, σ', h, hr => by
       simp only [forLoop] at hr
-      cases hbd : execL cfg n body { bindFor var x σ with ctxVals := x :: (bindFor var x σ).ctxVals } with
-      | error e => simp [hbd] at hr
-      | ok r1 =>
-        obtain ⟨sg1, σ1⟩ := r1
-        simp only [hbd, R_ok_bind] at hr
-        cases hd : σ1.dropCtx with
-        | error e => simp [hd] at hr
-        | ok σ2 =>
-          simp only [hd, R_ok_bind] at hr
-          obtain ⟨π2, he2, hR2, hnr⟩ := sim_loopBody cfg n body pbody (hb n) pvar x hR0 hev sg1 σ1 σ2 hbd hd
-          simp only [forPy, ha, R_ok_bind, he2]
-          cases sg1 with
-          | normal =>
-            simp only [sigP]
-            exact sim_for cfg body pbody hb var pvar hv n xs σ2 π2 sg σ' hR2 hr
-          | cont =>
-            simp only [sigP]
-            exact sim_for cfg body pbody hb var pvar hv n xs σ2 π2 sg σ' hR2 hr
-          | brk =>
-            simp at hr; obtain ⟨h1, h2⟩ := hr; subst h1; subst h2
-            exact ⟨π2, by simp [sigP], hR2⟩
-          | ret v => exact absurd rfl (hnr v)
-
+      split at hr
+      · simp at hr
+      · rename_i hdep
+        have hd : namedVar var = true → σ.depth = 0 := by
+          intro hnv
+          have : ¬ (σ.depth > 0) := fun hp => hdep ⟨hnv, hp⟩
+          omega
+        obtain ⟨π0, ha, hR0, hev⟩ := for_bind cfg n hv h x hd
+        cases hbd : execL cfg n body { bindFor var x σ with ctxVals := x :: (bindFor var x σ).ctxVals } with
+        | error e => simp [hbd] at hr
+        | ok r1 =>
+          obtain ⟨sg1, σ1⟩ := r1
+          simp only [hbd, R_ok_bind] at hr
+          cases hd1 : σ1.dropCtx with
+          | error e => simp [hd1] at hr
+          | ok σ2 =>
+            simp only [hd1, R_ok_bind] at hr
+            cases sg1 with
+            | normal =>
+              obtain ⟨π2, he2, hR2⟩ := sim_loopBody cfg n body pbody (hb n (by omega)) pvar x hR0 hev _ σ1 σ2 hbd hd1 (by intro v; simp)
+              simp only [forPy, ha, R_ok_bind, he2, sigP]
+              exact sim_for cfg N body pbody hb var pvar hv n (by omega) xs σ2 π2 sg σ' hR2 hr
+            | cont =>
+              obtain ⟨π2, he2, hR2⟩ := sim_loopBody cfg n body pbody (hb n (by omega)) pvar x hR0 hev _ σ1 σ2 hbd hd1 (by intro v; simp)
+              simp only [forPy, ha, R_ok_bind, he2, sigP]
+              exact sim_for cfg N body pbody hb var pvar hv n (by omega) xs σ2 π2 sg σ' hR2 hr
+            | brk =>
+              obtain ⟨π2, he2, hR2⟩ := sim_loopBody cfg n body pbody (hb n (by omega)) pvar x hR0 hev _ σ1 σ2 hbd hd1 (by intro v; simp)
+              simp only [forPy, ha, R_ok_bind, he2]
+              simp at hr; obtain ⟨h1, h2⟩ := hr; subst h1; subst h2
+              exact ⟨π2, by simp [sigP], hR2⟩
+            | ret v => simp at hr
 
 theorem eval_nm_condition (cfg : Cfg) (n : Nat) (π : PSt) (x : Val) (h : π.getVar ("condition", []) = some x) :
     evalE cfg n (nm "condition") π = .ok (x, π) := by
   simp [nm, evalE, h]
 
-theorem sim_while (cfg : Cfg) (cond : Option (List Structure)) (pcond : List PyStmt) (hc : SimsAll cfg (condProg cond) pcond)
-    (body : List Structure) (pbody : List PyStmt) (hb : SimsAll cfg body pbody) :
-    ∀ (n : Nat) (x : Val) (σ : RSt) (π : PSt) (sg : Sig) (σ' : RSt), Rel σ π → π.getVar ("condition", []) = some x →
+theorem sim_while (cfg : Cfg) (N : Nat) (cond : Option (List Structure)) (pcond : List PyStmt)
+    (hc : ∀ m, m < N → Sims cfg env m (condProg cond) pcond)
+    (body : List Structure) (pbody : List PyStmt) (hb : ∀ m, m < N → Sims cfg env m body pbody) :
+    ∀ (n : Nat), n ≤ N → ∀ (x : Val) (σ : RSt) (π : PSt) (sg : Sig) (σ' : RSt), Rel env A σ π → π.getVar ("condition", []) = some x →
       whileLoop cfg n cond body x σ = .ok (sg, σ') →
       ∃ π', whilePy cfg n boolifyCond
           ([ctxCall "context_values" "append" [nm "condition"]] ++ pbody ++ [ctxCall "context_values" "pop" []] ++ pcond ++ [condPop]) π =
-          .ok (sigP sg, π') ∧ Post sg σ' π'
-  | 0, x, σ, π, sg, σ', h, hx, hr => by
+          .ok (sigP sg, π') ∧ Post env A sg σ' π'
+  | 0, _, x, σ, π, sg, σ', h, hx, hr => by
       simp only [whileLoop] at hr
       by_cases ht : truthy x
       · simp [ht] at hr
       · simp [ht] at hr; obtain ⟨h1, h2⟩ := hr; subst h1; subst h2
         exact ⟨π, by simp [whilePy, eval_boolifyCond cfg 0 π x hx, ht, sigP], h⟩
-  | n + 1, x, σ, π, sg, σ', h, hx, hr => by
+  | n + 1, hn, x, σ, π, sg, σ', h, hx, hr => by
       simp only [whileLoop] at hr
       simp only [whilePy, eval_boolifyCond cfg n π x hx, R_ok_bind, pyTruth_b2i]
       by_cases ht : truthy x
@@ -609,47 +647,49 @@ theorem sim_while (cfg : Cfg) (cond : Option (List Structure)) (pcond : List PyS
           | error e => simp [hd] at hr
           | ok σ2 =>
             simp only [hd, R_ok_bind] at hr
-            obtain ⟨π2, he2, hR2, hnr⟩ := sim_loopBody cfg n body pbody (hb n) (nm "condition") x h
-              (eval_nm_condition cfg n π x hx) sg1 σ1 σ2 hbd hd
-            rw [List.append_assoc, execPL_append, he2]
             cases sg1 with
             | normal =>
+              obtain ⟨π2, he2, hR2⟩ := sim_loopBody cfg n body pbody (hb n (by omega)) (nm "condition") x h
+                (eval_nm_condition cfg n π x hx) _ σ1 σ2 hbd hd (by intro v; simp)
+              rw [List.append_assoc, execPL_append, he2]
               simp only [sigP]
               cases hcd : execL cfg n (condProg cond) σ2 with
               | error e => simp [hcd] at hr
               | ok r3 =>
                 obtain ⟨sg3, σ3⟩ := r3
                 simp only [hcd, R_ok_bind] at hr
-                obtain ⟨π3, he3, hP3⟩ := hc n _ _ _ _ hR2 hcd
+                obtain ⟨π3, he3, hP3⟩ := hc n (by omega) _ _ _ _ _ hR2 hcd
                 rw [execPL_append, he3]
                 cases sg3 with
                 | normal =>
                   simp only [sigP] at hr ⊢
-                  have hR3 : Rel σ3 π3 := hP3
+                  have hR3 : Rel env A σ3 π3 := hP3
                   obtain ⟨hcp, hR4⟩ := exec_condPop cfg n hR3
                   simp only [execPL_cons, hcp, execPL]
-                  have := sim_while cfg cond pcond hc body pbody hb n σ3.pop1.1 σ3.pop1.2 _ sg σ' hR4 (getVar_setVar_eq _ _ _) hr
+                  have := sim_while cfg N cond pcond hc body pbody hb n (by omega) σ3.pop1.1 σ3.pop1.2 _ sg σ' hR4 (getVar_setVar_eq _ _ _) hr
                   simpa [List.append_assoc, sigP] using this
                 | brk => simp at hr
                 | cont => simp at hr
                 | ret v => simp at hr
             | cont => simp at hr
             | brk =>
+              obtain ⟨π2, he2, hR2⟩ := sim_loopBody cfg n body pbody (hb n (by omega)) (nm "condition") x h
+                (eval_nm_condition cfg n π x hx) _ σ1 σ2 hbd hd (by intro v; simp)
+              rw [List.append_assoc, execPL_append, he2]
               simp at hr; obtain ⟨h1, h2⟩ := hr; subst h1; subst h2
               exact ⟨π2, by simp [sigP], hR2⟩
-            | ret v => exact absurd rfl (hnr v)
+            | ret v => simp at hr
       · simp only [ht, Bool.not_false, ↓reduceIte] at hr ⊢
         simp at hr; obtain ⟨h1, h2⟩ := hr; subst h1; subst h2
         exact ⟨π, by simp [sigP], h⟩
 
-
 /-- printing keeps the relation -/
-theorem Rel.print {σ : RSt} {π : PSt} (h : Rel σ π) (s : String) : Rel (σ.print s) (π.print s) :=
-  ⟨h.d0, h.params, h.pd0, h.stack, h.ctxVals, h.inputs, h.register, h.ghost, by simp [RSt.print, PSt.print, h.out],
-   by simp [RSt.print, PSt.print], h.retain, h.useTop, h.vars, h.clean⟩
+theorem Rel.print {σ : RSt} {π : PSt} (h : Rel env A σ π) (s : String) : Rel env A (σ.print s) (π.print s) :=
+  ⟨h.depth, h.params0, h.stack, h.ctxVals, h.inputs, h.register, h.ghost, by simp [RSt.print, PSt.print, h.out],
+   by simp [RSt.print, PSt.print], h.retain, h.useTop, h.stacks, h.fnStack, h.gvars, h.lvars, h.clean, h.fnsLen, h.lams, h.argVar⟩
 
-theorem Rel.setRegister {σ : RSt} {π : PSt} (h : Rel σ π) (v : Val) : Rel { σ with register := v } { π with register := v } :=
-  ⟨h.d0, h.params, h.pd0, h.stack, h.ctxVals, h.inputs, rfl, h.ghost, h.out, h.printed, h.retain, h.useTop, h.vars, h.clean⟩
-
+theorem Rel.setRegister {σ : RSt} {π : PSt} (h : Rel env A σ π) (v : Val) : Rel env A { σ with register := v } { π with register := v } :=
+  ⟨h.depth, h.params0, h.stack, h.ctxVals, h.inputs, rfl, h.ghost, h.out, h.printed, h.retain, h.useTop, h.stacks, h.fnStack,
+   h.gvars, h.lvars, h.clean, h.fnsLen, h.lams, h.argVar⟩
 
 end Vy.Sem
